@@ -91,6 +91,19 @@ impl<T: Qcow2IoOps> Qcow2Dev<T> {
             return Ok(());
         }
 
+        // An all-zero L2 entry means "unallocated", which reads as zero only
+        // without a backing image; with one it falls through to the backing
+        // data.  There the discarded cluster has to become a zero cluster
+        // (zero flag, version 3), or stay allocated and just be punched when
+        // the zero flag isn't available (version 2).
+        let released_entry = if !info.has_back_file() {
+            Some(L2Entry(0))
+        } else if self.header.read().await.version() >= 3 {
+            Some(L2Entry(1))
+        } else {
+            None
+        };
+
         let l2_handle = self.get_l2_slice(&split).await?;
         let mut l2_table = l2_handle.value().write().await;
 
@@ -108,9 +121,24 @@ impl<T: Qcow2IoOps> Qcow2Dev<T> {
             return Ok(());
         };
 
-        // Clear the L2 entry to all zeros (unallocated state, reads-as-zero).
+        // A zero-flagged entry already reads as zero: only a preallocation
+        // could be released, and without the zero flag it must stay.
+        if entry.is_zero() && released_entry.is_none() {
+            return Ok(());
+        }
+
+        let Some(released_entry) = released_entry else {
+            // keep the mapping, zero the data (holding the slice lock, so no
+            // write to this cluster can be mapped meanwhile)
+            let punch_len = host_count * info.cluster_size();
+            return self
+                .call_fallocate(host_cluster, punch_len, Qcow2OpsFlags::FALLOCATE_ZERO_RANGE)
+                .await;
+        };
+
+        // Clear the L2 entry (unallocated / zero state, reads-as-zero).
         let idx = split.l2_slice_index(info);
-        l2_table.set(idx, L2Entry(0));
+        l2_table.set(idx, released_entry);
         l2_handle.set_dirty(true);
         self.mark_need_flush(true);
         drop(l2_table);
